@@ -97,6 +97,33 @@ def address_sets(fn):
                 b = X.strip(b["ch"][0])
             if b is not None and b.get("k") == "ref" and b.get("rk") == "local":
                 res.setdefault(b["d"], set()).add(fld)
+    # a table filled by a helper of the same file that is handed self and the table (member_slots(self, slots): slots[0] = &url->proto; ..)
+    unit_ = getattr(fn, "unit", None)
+    if unit_ is not None:
+        for c in X.calls_in(fn.body):
+            g_ = unit_.functions.get(X.callee_name(c) or "")
+            if g_ is None or g_.body is None or g_ is fn or len(g_.params) != len(c["ch"]) - 1:
+                continue
+            args = [X.strip(a_) for a_ in c["ch"][1:]]
+            selfs = [j_ for j_, a_ in enumerate(args) if a_ is not None and a_.get("k") == "ref" and a_.get("rk") == "param" and a_.get("pi") == 0]
+            tabs = [(j_, a_) for j_, a_ in enumerate(args) if a_ is not None and a_.get("k") == "ref" and a_.get("rk") == "local"]
+            if not selfs or not tabs:
+                continue
+            for y in walk(g_.body):
+                if y.get("k") == "assign" and y.get("op") == "=":
+                    r = X.strip(y["ch"][1])
+                    if r is None or r.get("k") != "un" or r.get("op") != "&":
+                        continue
+                    fld = None
+                    for sj in selfs:
+                        fld = fld or self_field(r["ch"][0], sj)
+                    b = X.strip(y["ch"][0])
+                    while b is not None and b.get("k") == "index":
+                        b = X.strip(b["ch"][0])
+                    if fld is not None and b is not None and b.get("k") == "ref" and b.get("rk") == "param":
+                        for tj, ta in tabs:
+                            if b.get("pi") == tj:
+                                res.setdefault(ta["d"], set()).add(fld)
     # a pointer local given an element of such an array (slot = part[n]) stands for any of the array's fields
     changed = True
     while changed:
@@ -148,6 +175,46 @@ def denoted_fields(e, state, addr):
     return set()
 
 
+def pointee_release(g, pd):
+    """how a helper treats what its pointer parameter pd points to: None (does not release it), "reset" (releases *pd and
+    stores *pd again whenever it did), "dangling" (releases *pd and can return without storing it)"""
+    def is_pointee(e):
+        e = X.strip(e)
+        if e is None:
+            return False
+        if e.get("k") == "un" and e.get("op") == "*" and (X.strip(e["ch"][0]) or {}).get("d") == pd:
+            return True
+        if e.get("k") == "ref" and e.get("rk") == "local":
+            ds_ = [y["ch"][1] for y in walk(g.body) if y.get("k") == "assign" and y.get("op") == "=" and (X.strip(y["ch"][0]) or {}).get("d") == e["d"]]
+            ds_ += [dc["init"] for y in walk(g.body) if y.get("k") == "decl" for dc in y.get("decls", ()) if dc["d"] == e["d"] and dc.get("init") is not None]
+            return len(ds_) == 1 and is_pointee(ds_[0]) and X.strip(ds_[0]).get("k") == "un"
+        return False
+    rels = [c for c in X.calls_in(g.body) if own.release_kind(c) in ("free", "del") and c["ch"][1:] and
+            is_pointee(c["ch"][-1] if X.callee_name(c) == "spifmem_free" else c["ch"][1])]
+    if not rels:
+        return None
+
+    def ctl(n):
+        out = []
+        q = g.parent.get(n["i"])
+        while q is not None:
+            if q.get("k") in ("if", "for", "while", "do", "switch", "cond"):
+                out.append(q["i"])
+            q = g.parent.get(q["i"])
+        return set(out)
+    stores = [y for y in walk(g.body) if y.get("k") == "assign" and y.get("op") == "=" and (X.strip(y["ch"][0]) or {}).get("k") == "un" and
+              X.strip(y["ch"][0]).get("op") == "*" and (X.strip(X.strip(y["ch"][0])["ch"][0]) or {}).get("d") == pd]
+    rets = [y["i"] for y in walk(g.body) if y.get("k") == "return"]
+    for r in rels:
+        ok = False
+        for y in stores:
+            if y["i"] > r["i"] and ctl(y) <= ctl(r) and not any(r["i"] < ri < y["i"] for ri in rets):
+                ok = True
+        if not ok:
+            return "dangling"
+    return "reset"
+
+
 def check_done(chk, prog, f, rule="O1"):
     """O1 (done functions) / O13 (every other method): release typestate of self's fields in a done function.  A field may be released through the field expression
     itself, through a local holding its value, or through a pointer to it; the reset must follow on every path."""
@@ -174,6 +241,32 @@ def check_done(chk, prog, f, rule="O1"):
                             relsite.setdefault(x[2], n)
                 return frozenset(st)
         if k == "call" and own.release_kind(n) is None:
+            # a unit-local helper handed a pointer to the field (release_member(&self->proto) / release_member(slots[i])) that
+            # releases what the pointer points to; whether it also resets it decides if the field is left dangling
+            g_ = f.unit.functions.get(X.callee_name(n) or "")
+            if g_ is not None and g_.body is not None and g_ is not f and len(g_.params) == len(n["ch"]) - 1:
+                for j_, a_ in enumerate(n["ch"][1:]):
+                    sa_ = X.strip(a_)
+                    pf = set()
+                    if sa_ is not None and sa_.get("k") == "un" and sa_.get("op") == "&" and self_field(sa_["ch"][0]) is not None:
+                        pf = {self_field(sa_["ch"][0])}
+                    elif sa_ is not None:
+                        b_ = sa_
+                        while b_ is not None and b_.get("k") == "index":
+                            b_ = X.strip(b_["ch"][0])
+                        if b_ is not None and b_.get("k") == "ref" and b_.get("d") in addr and g_.params[j_].get("tp"):
+                            pf = set(addr[b_["d"]])
+                    if not pf:
+                        continue
+                    how = pointee_release(g_, g_.params[j_]["d"])
+                    if how is None:
+                        continue
+                    st = set(state)
+                    for fld in pf:
+                        relsite.setdefault(fld, n)
+                        if how == "dangling":
+                            st.add(("rel", fld))
+                    return frozenset(st)
             # a unit-local helper handed self that stores fields of it unconditionally (set_empty(self): head = NULL; len = 0;)
             g_ = f.unit.functions.get(X.callee_name(n) or "")
             if g_ is not None and g_.body is not None and g_ is not f:
@@ -381,15 +474,53 @@ def check_setter(chk, prog, f):
     return True
 
 
+def _table_store(fn, n, addr):
+    """fields assigned by `*T[i] = v` where T is a table of field addresses, the store is inside a loop whose counter is i and
+    runs from 0 below the table's length (every entry is visited)"""
+    l = X.strip(n["ch"][0])
+    if l is None or l.get("k") != "un" or l.get("op") != "*":
+        return set()
+    e = X.strip(l["ch"][0])
+    if e is None or e.get("k") != "index":
+        return set()
+    b, ix = X.strip(e["ch"][0]), X.strip(e["ch"][1])
+    if b is None or b.get("k") != "ref" or b.get("d") not in addr or ix is None or ix.get("k") != "ref":
+        return set()
+    vd = fn.vardecls.get(b["d"]) or {}
+    alen = vd.get("alen")
+    q = fn.parent.get(n["i"])
+    while q is not None and q.get("k") not in ("for", "while", "do"):
+        q = fn.parent.get(q["i"])
+    if q is None or q.get("cond") is None:
+        return set()
+    c = X.strip(q["cond"])
+    if c is None or c.get("k") != "bin" or c.get("op") not in ("<", "!=") or (X.strip(c["ch"][0]) or {}).get("d") != ix["d"]:
+        return set()
+    bound = X.const_val(c["ch"][1])
+    if bound is None or (alen is not None and bound != alen) or bound < len(addr[b["d"]]):
+        return set()
+    # the counter starts at 0 (for-init, declaration or the assignment before the loop) and is only ever stepped by one
+    starts = [X.const_val(y["ch"][1]) for y in walk(fn.body) if y.get("k") == "assign" and y.get("op") == "=" and (X.strip(y["ch"][0]) or {}).get("d") == ix["d"]]
+    starts += [X.const_val(dc["init"]) for y in walk(fn.body) if y.get("k") == "decl" for dc in y.get("decls", ()) if dc["d"] == ix["d"] and dc.get("init") is not None]
+    if not starts or any(v != 0 for v in starts):
+        return set()
+    return set(addr[b["d"]])
+
+
 def check_init(chk, prog, f, owned):
     """O9: the plain init assigns every owned field (directly, by zero-fill, or by delegating to another init)."""
     assigned = set()
     delegated = False
+    addr0 = address_sets(f)
     for n in walk(f.body):
         if n.get("k") == "assign":
             fld = self_field(n["ch"][0])
             if fld:
                 assigned.add(fld)
+            elif addr0:
+                # a store through a table of the fields' addresses (*slots[i] = NULL): which entry is not followed, so this
+                # counts for the table as a whole only when the store sits in a loop over the table
+                assigned.update(_table_store(f, n, addr0))
             # chained: a->x = a->y = NULL
         if n.get("k") == "call":
             cn = X.callee_name(n) or ""
@@ -431,11 +562,14 @@ def check_init(chk, prog, f, owned):
                         pj = [j for j, a in enumerate(args) if X.strip(a).get("rk") == "param" and X.strip(a).get("pi") == 0]
                         for j in pj:
                             if j < len(h.params):
+                                addr_h = address_sets(h) if j == 0 else {}
                                 for m in walk(h.body):
                                     if m.get("k") == "assign":
                                         fld2 = self_field(m["ch"][0], j)
                                         if fld2:
                                             assigned.add(fld2)
+                                        elif addr_h:
+                                            assigned.update(_table_store(h, m, addr_h))
     for fld in owned:
         ok = delegated or fld in assigned
         chk.ob("O9", f.name, "init-assigns:" + fld, ok, loc=f.loc(f.body),
